@@ -5,6 +5,7 @@ weight function / arbitrary `md5`, any number of services.
 -/
 import ArvVerif.Proofs.C12
 import ArvVerif.Proofs.C12_Hex
+import ArvVerif.Proofs.C12_Sweep
 namespace ArvVerif.C12
 variable {α : Type}
 
@@ -106,6 +107,59 @@ theorem C12_string_order_is_numeric_order (xs ys : List Nat) (hlen : xs.length =
 
 example : lexLt [0, 10, 15] [1, 0, 0] = true ∧ digitsVal 16 [0, 10, 15] = 175 ∧ digitsVal 16 [1, 0, 0] = 256 := by
   decide
+
+/-- keep-balance balances many blocks at the same time (`ComputeChangeSets`' worker pool). Under
+ANY interleaving of the workers' steps, for any number of blocks and workers, every block that has
+been placed is wanted on the first `d` servers of the ranking of *that* block — nothing leaks from
+the blocks balanced alongside it — and the tasks still belong to the blocks they were created for. -/
+theorem C12_sweep_any_schedule {β : Type} (w : β → α → Nat) (svcs : List α) (d : Nat) (blks : List β)
+    (sched : List SweepStep) :
+    (sweepRun w svcs d blks sched).map (·.blk) = blks ∧
+    ∀ t ∈ sweepRun w svcs d blks sched, ∀ x, t.wanted = some x →
+      x = wantedServers d (probeOrder (w t.blk) svcs) := by
+  have h := foldl_sweep_ok w svcs d sched _ (init_ok w svcs d blks)
+  refine ⟨by simpa [sweepRun, Function.comp_def] using h.2, ?_⟩
+  intro t ht x hx
+  rcases (h.1 t ht).2 with h2 | h2
+  · rw [h2] at hx; cases hx
+  · rw [h2] at hx; cases hx; rfl
+
+/-- … and those are the first `d` positions a reader of that block tries (weights of the block
+pairwise distinct), whatever the schedule. -/
+theorem C12_sweep_places_where_readers_look {β : Type} (w : β → α → Nat) (svcs : List α) (d : Nat)
+    (blks : List β) (sched : List SweepStep) (t : Task β α) (x readOrder : List α)
+    (ht : t ∈ sweepRun w svcs d blks sched) (hx : t.wanted = some x)
+    (hinj : ∀ a ∈ svcs, ∀ b ∈ svcs, w t.blk a = w t.blk b → a = b)
+    (hr : IsProbeOrder (w t.blk) svcs readOrder) : x = readOrder.take d := by
+  rw [(C12_sweep_any_schedule w svcs d blks sched).2 t ht x hx,
+      C12_determined (w t.blk) svcs readOrder hinj hr]
+  rfl
+
+/-- two blocks that rank the services [1, 2, 3] in opposite orders -/
+def exW : Nat → Nat → Nat
+  | 0, a => a
+  | _, a => 10 - a
+
+theorem exW_order0 : probeOrder (exW 0) [1, 2, 3] = [3, 2, 1] :=
+  (C12_determined (exW 0) [1, 2, 3] [3, 2, 1] (by decide) ⟨by decide, by decide⟩).symm
+
+theorem exW_order1 : probeOrder (exW 1) [1, 2, 3] = [1, 2, 3] :=
+  (C12_determined (exW 1) [1, 2, 3] [1, 2, 3] (by decide) ⟨by decide, by decide⟩).symm
+
+/-- A worker that ranks and then places its block does place it (the conclusion above is not
+vacuous): after `rank 0; rank 1; place 0; place 1` both tasks have their own result. -/
+example : (sweepRun exW [1, 2, 3] 1 [0, 1] [.rank 0, .rank 1, .place 0, .place 1]).map (·.wanted)
+    = [some [3], some [1]] := by
+  simp [sweepRun, sweepStep, updAt, rankTask, placeTask, wantedServers, exW_order0, exW_order1]
+
+/-- Why the ranking must be local to the call: if it is kept in state shared by all calls (the
+`sharedRun` variant), the same schedule places block 0 by block 1's ranking, i.e. NOT on the first
+server of its own ranking. -/
+theorem C12_shared_rank_breaks :
+    (sharedRun exW [1, 2, 3] 1 [0, 1] [.rank 0, .rank 1, .place 0, .place 1]).map (·.wanted)
+      = [some [1], some [1]] ∧
+    wantedServers 1 (probeOrder (exW 0) [1, 2, 3]) = [3] := by
+  simp [sharedRun, sharedStep, updAt, wantedServers, exW_order0, exW_order1]
 
 /-! Non-vacuity: concrete instances of the hypotheses. -/
 example : IsProbeOrder (fun n : Nat => n) [3, 1, 2] [3, 2, 1] := by
